@@ -31,21 +31,10 @@ def user_constructions(prog, adt):
     return out
 
 
-def run(ctx):
+def admission_gate_rule(ctx, r1):
+    """every FileDesc is built behind the refusal gate of its own OTI (shared with C08.R10: the gate is what keeps the number of blocks within
+    the SBN field of the scheme, so that every source symbol has its own (SBN, ESI) on the wire)"""
     prog = ctx.prog
-    ctx.explanation = (
-        "C01 is a byte-exact round-trip property; static analysis decides only its structural necessary conditions: "
-        "R1 the refusal gate dominates every construction of a transmittable object, R2 the per-scheme capacity "
-        "constants fit the wire field that carries them, R3 both ends call the same partition function with the same "
-        "argument roles (shared with C07), R4 every metadata field flows from the sender's object into the FDT File "
-        "entry and from the File entry into the writer's metadata.")
-    ctx.not_decided += ["byte equality of delivered objects", "FEC / inflate / XML library behaviour",
-                        "exactly-one-copy over configurations"]
-
-    # ---- R1 refusal gate -----------------------------------------------------------------
-    r1 = ctx.rule("C01.R1", "every FileDesc is built by a function in which each path to the construction passes the "
-                            "not-taken edge of `transfer_length > Oti::max_transfer_length()`; only the FDT module "
-                            "creates FileDescs", "MPT+WMC")
     cons = user_constructions(prog, FILEDESC)
     for f, bb, i, s in cons:
         ctx.analysed(f.path)
@@ -83,6 +72,31 @@ def run(ctx):
                                   path_text(f.body, w)), loc(s.sp))
     r1.floor(1, "user constructions of FileDesc")
     wmc(r1, prog, r"^sender::filedesc::FileDesc::new$", [r"^sender::fdt::Fdt::(add_object|publish)$"])
+
+
+def run(ctx):
+    prog = ctx.prog
+    ctx.explanation = (
+        "C01 is a byte-exact round-trip property; static analysis decides only its structural necessary conditions: "
+        "R1 the refusal gate dominates every construction of a transmittable object, R2 the per-scheme capacity "
+        "constants fit the wire field that carries them, R3 both ends call the same partition function with the same "
+        "argument roles (shared with C07), R4 every metadata field flows from the sender's object into the FDT File "
+        "entry and from the File entry into the writer's metadata.")
+    ctx.not_decided += ["byte equality of delivered objects", "FEC / inflate / XML library behaviour",
+                        "exactly-one-copy over configurations"]
+
+    # ---- R1 refusal gate -----------------------------------------------------------------
+    r1 = ctx.rule("C01.R1", "every FileDesc is built by a function in which each path to the construction passes the "
+                            "not-taken edge of `transfer_length > Oti::max_transfer_length()`; only the FDT module "
+                            "creates FileDescs", "MPT+WMC")
+    admission_gate_rule(ctx, r1)
+
+    # ---- R12 the object's own FDT instance goes out before its packets ------------------------------------------------------------------
+    r12 = ctx.rule("C01.R12", "an object is announced before it is sent: every path of SenderSession::run to encoder.read() / new_alc_pkt passes "
+                              "the not-pending edge of need_transfer_fdt() evaluated after the file was picked - an empty object has a single "
+                              "packet, sent before the FDT that lists it it is never delivered (same analysis as C11.R2)", "MPT under assumption")
+    from . import c11
+    c11.fdt_pending_gate(ctx, r12)
 
     # ---- R2 capacity table vs wire width ----------------------------------------------------
     r2 = ctx.rule("C01.R2", "per FEC scheme, the transfer-length cap of Oti::max_transfer_length fits the EXT_FTI "
@@ -352,6 +366,32 @@ def block_addressing_rule(ctx, rule):
                 rule.ok(key, "to block_offset + 1", s_.loc)
             else:
                 rule.violation(key, "the block vector is grown to %s" % show(s_.expr[2][1], 60), s_.loc)
+    # the range of valid SBNs is the partition's N (self.nb_blocks), never the number of block slots allocated so far (nb_block() =
+    # blocks_offset + blocks.len(), which grows on demand and is capped by the pre-allocation limit)
+    from ..cfg import cmp_kind
+    key = "push_to_block2 SBN range test uses the partition's block count"
+    badc = []
+    nrange = 0
+    for blk_ in f.body.blocks:
+        if blk_.cleanup or blk_.term.k != "switch":
+            continue
+        for k_ in range(len(blk_.term.targets) + 1):
+            for (a_, t_) in fl.edge_facts(("e", blk_.i, k_)):
+                if a_[0] not in ("lt", "le"):
+                    continue
+                l0_, r0_ = show(a_[1], 200), show(a_[2], 200)
+                if not re.search(r"\.sbn\b", l0_ + r0_):
+                    continue
+                other = show(sl.expand(a_[2] if re.search(r"\.sbn\b", l0_) else a_[1]), 200)
+                if re.search(r"\bnb_blocks\b", other):
+                    nrange += 1
+                if re.search(r"::nb_block\(|VecDeque::len\(&self\.blocks\)|len\(self\.blocks\)", other):
+                    badc.append(other)
+    if badc:
+        rule.violation(key, "the SBN of a packet is range-tested against %s - the slots allocated so far - instead of the number of blocks of the "
+                            "partition: blocks beyond the allocated window are refused before the vector is grown for them" % badc[0][:80], loc(f.sp))
+    elif nrange:
+        rule.ok(key, "compared with self.nb_blocks", loc(f.sp))
     # the refusal
     errs = [(bb, e) for bb, e in ret_assign_blocks(f.body, lambda e: is_variant(e, "Err")) if "Too many blocks" in show(e, 200)]
     key = "push_to_block2 'too many blocks' refusal"
